@@ -66,7 +66,7 @@ fn add<V: Full>(prop: &mut Property, ctx: &Ctx) {
     {
         let ks = ks.clone();
         let envs: Vec<Mode> = vec![Mode::Counter(0xc07), Mode::Const(0), Mode::Const(0xff), Mode::Counting];
-        let costs = [Cost::Min, Cost::Small, Cost::Medium];
+        let costs = [Cost::Min, Cost::Small, Cost::Medium, Cost::Odd];
         let nkeys = if V::VER == 1 { 2 } else { 3 };
         let rad = [kinds.len() as u64, nkeys as u64, envs.len() as u64, costs.len() as u64];
         prop.subs.push(
